@@ -204,10 +204,47 @@ class C02(Check):
     harness_sources = ['harness/hash.cpp']
     technique = ('machine-checked proof in Coq about a hand-written Gallina model; model tied to the code by an '
                  'extracted-model vs implementation correspondence check')
-    level_text = ''
-    level_note = ''
-    rule = ''
-    assumptions = []
+    level_text = ('Theorems in Coq (24, all closed under the global context), for every key type with decidable equality, EVERY '
+                  'hash function (Section variable: all keys in one bucket is an instance), every list of capacities and every '
+                  'history over several container variables and all 22 operations (construct, find, contains, positional insert, '
+                  'append, prepend, remove by key / iterator / value, removeFront/Back, clear, swap, front/back, copy, assignment, '
+                  '==, bulk append/remove, write through the iterator): the model of HashMap/HashSet/PoolMap (bucket chains + '
+                  'insertion-order list + free-item list) keeps the invariant "every listed key is in bucket hash mod capacity '
+                  'exactly once, chains hold only listed keys, sizes agree" (C02_invariant_init/_step/_reachable) and produces '
+                  'exactly the results (returned iterators as rank:key:value, values, booleans) and observations (size, isEmpty, '
+                  'iteration order of every variable after every operation) of a reference insertion-ordered unique-key '
+                  'association list (C02_refines_ordered_map, C02_step_refines, per-operation lemmas). Inserting a present key '
+                  'keeps rank and all other entries and replaces the value for HashMap (C02_insert_present_hashmap) and returns '
+                  'the table unchanged for HashSet/PoolMap (C02_insert_present_set_pool_untouched). Node recycling: live items '
+                  'and free list partition the 4*blocks allocated items in every reachable state (C02_pool_reachable). '
+                  'The model is tied to the code by running the extracted model, the extracted reference and the ASan/UBSan '
+                  'build of the working tree on the same histories and comparing, after every operation, the result, the public '
+                  'state of every variable, and the internals read through an access override: capacity, data!=0, bucket index '
+                  'and chain order of every key, cell back-pointers, prev links, slot (block, index) of every item, free list, '
+                  'number of blocks.')
+    level_note = ('Trusted: Coq kernel, the reference object (HashSpec.v, 130 lines), extraction + OCaml driver, harness. The '
+                  'theorems are about the model; that the model mirrors the C++ is validated by correspondence only (differential, '
+                  'incl. the concrete hash functions hash(int32/int64)=(usize)v and String hash). API preconditions (position <= '
+                  'size, rank < size, non-empty for front/back/removeFront/removeBack, capacity >= 0) are modelled as "call not '
+                  'made". Key equality is assumed to be a decidable Leibniz equality (true of int32/int64/String). x = x: the '
+                  'model carries the self-assignment guard (as if repaired); the unrepaired HashMap/HashSet::operator= empty the '
+                  'container on x = x - this is accounted under C04 (DESIGN section 5 row 2) and self-assignment histories are '
+                  'generated only with VERIF_C02_SELF_ASSIGN=1. Value type int / default-constructed 77 for PoolMap; element '
+                  'construction/destruction counts belong to C04.')
+    rule = ('case = history of up to ~70 operations over 1-3 container variables of one kind (HashMap<K,int>, HashSet<K>, '
+            'PoolMap<K,Val>), K in {int32,int64,String}, capacities from {0,1,2,3,7,64,500}; streams: mixed, collide (capacity '
+            '1..7 with keys that are multiples of the capacity / Strings equal at the three hashed positions), multi (swap/copy/'
+            'assign/==/bulk), pool (node recycling), malformed (precondition violations), boundary (hand-written), targeted '
+            '(every chain position x every removal method; swap of tables of sizes 0..3 then use of both; order/value/prefix-'
+            'sensitive ==; present key at every position for every insert flavour), exhaustive (all histories of length <= 3 '
+            '(quick) / 4 (thorough) over a 13..17-op alphabet, capacities 1 and 2). A case is non-trivial when the '
+            'implementation showed a bucket chain of length >= 2 and the history unlinks something (remove*/clear/assign/swap/'
+            'bulk remove) and has >= 5 operations; distinct = distinct op text')
+    assumptions = ['key equality decides Leibniz equality (int32, int64, String)',
+                   'API preconditions hold (violating calls are not made): position <= size, rank < size, non-empty for '
+                   'front/back/removeFront/removeBack',
+                   'x = x excluded (C04); model carries the self-assignment guard',
+                   'the Model mirrors the C++ code: validated by correspondence only']
 
     def nontrivial(self, case, obs):
         # a chain of length >= 2 was observed in the implementation's bucket dump, and something was unlinked
@@ -250,6 +287,12 @@ class C02(Check):
         out.append(Stream('malformed', rand_cases(300 * mul, 'mixed', ['i', 's'], bad=0.25, nops=(5, 25)),
                           note='precondition violations (bad variable, position > size, rank >= size, empty container): not executed, state unchanged'))
         out.append(Stream('boundary', self.boundary_cases(rng), note='hand-written boundary histories'))
+        out.append(Stream('targeted', self.targeted_cases(rng, thorough),
+                          note='case splits of the proofs: every chain position x every removal method, then the chain neighbours; '
+                               'swap of tables of sizes 0..3 followed by use of both; order/value/prefix-sensitive ==; present key '
+                               'at every position x insert flavour'))
+        if os.environ.get('VERIF_C02_SELF_ASSIGN') == '1':
+            out.append(Stream('selfassign', self.self_assign_cases(), note='x = x (C04 finding; off by default)'))
         out.append(Stream('exhaustive', self.exhaustive_cases(4 if thorough else 3), exhaustive=True,
                           note='every history of length <= %d over a 13-op alphabet, 2 variables, capacities 1 and 2, keys {0,1,2}' % (4 if thorough else 3)))
         return out
@@ -292,6 +335,99 @@ class C02(Check):
                     many = [str(i * max(cap, 1)) for i in range(9)] if kt == 'i' else [hexs([0x61, 0x41 + i, 0x62, 0x41 + 2 * i, 0x63]) for i in range(9)]
                     cases.append([h] + ['app 0 %s %s' % (k, v(i)) for i, k in enumerate(many)] + ['rmi 0 4', 'rmk 0 ' + many[1], 'rmb 0', 'rmf 0',
                                  'app 0 %s %s' % (many[1], v(7)), 'clear 0'] + ['pre 0 %s %s' % (k, v(i)) for i, k in enumerate(many)] + ['rmi 0 8', 'rmi 0 0'])
+        return cases
+
+    def targeted_cases(self, rng, thorough):
+        cases = []
+        strs = [hexs([0x61, 0x41 + i, 0x62, 0x41 + 3 * i, 0x63]) for i in range(8)]      # equal at positions 0, len/2, len-1
+        for kd in KINDS:
+            v = (lambda n: str(n)) if kd != 'hs' else (lambda n: '0')
+            for kt in ('i', 's', 'l'):
+                for cap in ((1, 3, 7) if not thorough else (1, 2, 3, 7, 64)):
+                    if kt == 'i':
+                        keys = [str(2 + i * cap) for i in range(6)]
+                        other = [str(2 + 100 * cap + 1)]                        # a neighbouring bucket (the same one for capacity 1)
+                    elif kt == 'l':
+                        keys = [str((2 + i * cap) + (i % 2) * cap * (1 << 40)) for i in range(6)]
+                        other = [str(3 - cap * (1 << 35))]
+                    else:
+                        keys = strs[:6]
+                        other = [hexs([0x62, 0x41, 0x62, 0x41, 0x63])]
+                    h = '@%s %s %d %d' % (kd, kt, cap, max(cap - 1, 0))
+                    # 1. one chain of n keys (+ a bystander), remove chain position j by every method, then its
+                    #    chain neighbours, probe, re-insert (slot reuse), remove again
+                    for n in (2, 3, 4, 5):
+                        build = ['app 0 %s %s' % (other[0], v(9))] + ['app 0 %s %s' % (k, v(i)) for i, k in enumerate(keys[:n])]
+                        for j in range(n):
+                            rank = j + 1
+                            meths = ['rmk 0 ' + keys[j], 'rmi 0 %d' % rank]
+                            if kd == 'pm':
+                                meths.append('rmv 0 %d' % rank)
+                            if j == n - 1:
+                                meths.append('rmb 0')
+                            for m in meths:
+                                tail = []
+                                if j + 1 < n:
+                                    tail.append('rmk 0 ' + keys[j + 1])          # chain predecessor (inserted later = nearer the head)
+                                if j > 0:
+                                    tail.append('rmk 0 ' + keys[j - 1])          # chain successor
+                                tail += ['find 0 ' + k for k in keys[:n]] + ['app 0 %s %s' % (keys[j], v(50)), 'find 0 ' + keys[j],
+                                         'rmf 0', 'rmk 0 ' + keys[j], 'find 0 ' + keys[0], 'find 0 ' + keys[n - 1]]
+                                cases.append([h] + build + [m] + tail)
+                        # removeFront when the front is the chain tail (oldest)
+                        cases.append([h] + build[1:] + ['rmf 0', 'rmf 0'] + ['find 0 ' + k for k in keys[:n]] + ['rmb 0', 'clear 0',
+                                     'find 0 ' + keys[0], 'app 0 %s %s' % (keys[0], v(1)), 'find 0 ' + keys[0]])
+                    # 2. swap of tables of sizes m, n in 0..3, then both are used: append, iterate to the (re-anchored) end,
+                    #    remove at both ends, swap back, clear
+                    for m in range(4):
+                        for n in range(4):
+                            a = ['app 0 %s %s' % (k, v(i)) for i, k in enumerate(keys[:m])]
+                            b = ['app 1 %s %s' % (k, v(10 + i)) for i, k in enumerate(reversed(keys[6 - n:]))] if n else []
+                            use = ['swap 0 1', 'back 0', 'back 1', 'app 0 %s %s' % (other[0], v(7)), 'app 1 %s %s' % (other[0], v(8)),
+                                   'find 0 ' + keys[5], 'find 1 ' + keys[0], 'rmb 0', 'rmb 1', 'rmb 0', 'rmb 1', 'rmf 0', 'rmf 1',
+                                   'ins 0 0 %s %s' % (keys[1], v(3)), 'ins 1 0 %s %s' % (keys[1], v(4)), 'swap 1 0', 'swap 0 0',
+                                   'app 0 %s %s' % (keys[2], v(5)), 'clear 1', 'app 1 %s %s' % (keys[3], v(6)), 'swap 0 1',
+                                   'rmb 0', 'rmb 1', 'front 0', 'front 1']
+                            if kd != 'pm':
+                                use += ['eq 0 1', 'assign 0 1', 'eq 0 1', 'eq 1 0']
+                            cases.append([h] + a + b + use)
+                    # 3. ==: same keys other order / same order other value / proper prefix both ways / after swap / empty
+                    if kd != 'pm':
+                        k0, k1, k2 = keys[0], keys[1], keys[2]
+                        for a, b in (([k0, k1, k2], [k0, k2, k1]), ([k0, k1, k2], [k1, k0, k2]), ([k0, k1, k2], [k0, k1]),
+                                     ([k0, k1], [k0, k1, k2]), ([k0, k1, k2], [k0, k1, k2]), ([], [k0]), ([k0], []), ([], []),
+                                     ([k0, k1, k2], [k2, k1, k0]), ([k0], [k1])):
+                            pre = ['app 0 %s %s' % (k, v(i)) for i, k in enumerate(a)] + ['app 1 %s %s' % (k, v(b.index(k) if k not in a else a.index(k))) for k in b]
+                            cases.append([h] + pre + ['eq 0 1', 'eq 1 0', 'swap 0 1', 'eq 0 1', 'eq 1 0', 'eq 0 0', 'eq 1 1'])
+                        if kd == 'hm':
+                            pre = ['app 0 %s 1' % k0, 'app 0 %s 2' % k1, 'app 1 %s 1' % k0, 'app 1 %s 3' % k1]
+                            cases.append([h] + pre + ['eq 0 1', 'eq 1 0', 'setv 1 %s 2' % k1, 'eq 0 1', 'app 1 %s 1' % k0, 'eq 0 1',
+                                                      'ins 1 0 %s 9' % k1, 'eq 0 1', 'eq 1 0', 'pre 0 %s 9' % k1, 'eq 0 1'])
+                        # copy / assign into and from tables with chains, then independence
+                        cases.append([h] + ['app 0 %s %s' % (k, v(i)) for i, k in enumerate(keys[:4])] + ['app 1 %s %s' % (keys[5], v(1)),
+                                     'copy 1 0', 'eq 0 1', 'rmk 1 ' + keys[1], 'eq 0 1', 'find 0 ' + keys[1], 'assign 0 1', 'eq 0 1',
+                                     'app 0 %s %s' % (keys[4], v(2)), 'find 1 ' + keys[4], 'eq 1 0', 'new 1 %d' % cap, 'assign 1 0', 'eq 1 0'])
+                    # 4. present key at every position x insert flavour: rank and neighbours unchanged
+                    build = ['app 0 %s %s' % (k, v(i)) for i, k in enumerate(keys[:4])]
+                    for j in range(4):
+                        for pos in range(5):
+                            cases.append([h] + build + ['ins 0 %d %s %s' % (pos, keys[j], v(90)), 'find 0 ' + keys[j]] +
+                                         ['find 0 ' + k for k in keys[:4] if k != keys[j]])
+                        cases.append([h] + build + ['app 0 %s %s' % (keys[j], v(91)), 'find 0 ' + keys[j], 'rmb 0', 'find 0 ' + keys[j]])
+                        if kd != 'pm':
+                            cases.append([h] + build + ['pre 0 %s %s' % (keys[j], v(92)), 'find 0 ' + keys[j], 'rmf 0', 'find 0 ' + keys[j]])
+                    if kd == 'hs':
+                        cases.append([h] + build + ['app 1 %s 0' % keys[2], 'app 1 %s 0' % keys[5], 'app 1 %s 0' % keys[0], 'appall 0 1',
+                                                    'find 0 ' + keys[5], 'rmall 0 1', 'find 0 ' + keys[1], 'rmall 0 0', 'appall 0 1', 'appall 1 1'])
+        return cases
+
+    def self_assign_cases(self):
+        cases = []
+        for kd in ('hm', 'hs'):
+            v = '5' if kd == 'hm' else '0'
+            for kt, ks in (('i', ['1', '8', '15']), ('s', ['61', '6162', '-'])):
+                for cap in (1, 7, 500):
+                    cases.append(['@%s %s %d' % (kd, kt, cap)] + ['app 0 %s %s' % (k, v) for k in ks] + ['assign 0 0', 'find 0 ' + ks[1], 'eq 0 0'])
         return cases
 
     def exhaustive_cases(self, depth):
